@@ -67,41 +67,45 @@ Print Assumptions C07_read_call2_same.
 
 (* ---------- the body stays a usable reader through every wrapping stage ---------- *)
 
-Theorem C07_stages_never_nil : forall st c p ce ct o, sound (pipeline st c p ce ct o) = true.
+Theorem C07_stages_never_nil : forall st c p guard ce ct o, sound (pipeline st c p guard ce ct o) = true.
 Proof. exact stages_never_nil. Qed.
 Print Assumptions C07_stages_never_nil.
 
-Theorem C07_stages_only_add : forall st c p ce ct o,
-  core (pipeline st c p ce ct o) = core (transport_body st c ce).
+Theorem C07_stages_only_add : forall st c p guard ce ct o,
+  core (pipeline st c p guard ce ct o) = core (transport_body st c ce).
 Proof. exact stages_only_add. Qed.
 Print Assumptions C07_stages_only_add.
 
-Theorem C07_dump_outermost : forall st c p ce ct o,
-  exists rest, fst (flatten (pipeline st c p ce ct o)) = repeat TDump (p_dumpers p) ++ rest /\
+Theorem C07_dump_outermost : forall st c p guard ce ct o,
+  exists rest, fst (flatten (pipeline st c p guard ce ct o)) = repeat TDump (p_dumpers p) ++ rest /\
                ~ In TDump rest.
 Proof. exact dump_outermost. Qed.
 Print Assumptions C07_dump_outermost.
 
-Theorem C07_decode_off_for_utf8 : forall d ct o cs,
+Theorem C07_decode_off_for_utf8 : forall d g ct o cs,
   o_parse_err o = false -> o_charset o = Some cs ->
   contains_sub (bs "utf-8") (to_lower cs) || contains_sub (bs "utf8") (to_lower cs) = true ->
-  decode_decision d ct o = DNone.
+  decode_decision d g ct o = DNone.
 Proof. exact decode_off_for_utf8. Qed.
 Print Assumptions C07_decode_off_for_utf8.
 
-Theorem C07_decode_off_for_unknown_charset : forall d ct o cs,
+Theorem C07_decode_off_for_unknown_charset : forall d g ct o cs,
   o_parse_err o = false -> o_charset o = Some cs -> o_known o = false ->
-  decode_decision d ct o = DNone.
+  decode_decision d g ct o = DNone.
 Proof. exact decode_off_for_unknown_charset. Qed.
 Print Assumptions C07_decode_off_for_unknown_charset.
 
+Theorem C07_decode_off_when_guarded : forall d g ct o, g <> [] -> decode_decision d g ct o = DNone.
+Proof. exact decode_off_when_guarded. Qed.
+Print Assumptions C07_decode_off_when_guarded.
+
 (* the pinned code: nil stored as the body for an unsupported coding, then wrapped *)
 Theorem C07_stages_pinned_refuted :
-  sound (pipeline_pinned H1 cfg_auto cfg_plain (bs "identity") (bs "text/plain") o_none) = false /\
-  sound (pipeline_pinned H2 cfg_auto cfg_plain (bs "identity") (bs "text/plain") o_none) = false /\
-  sound (pipeline_pinned H3 cfg_auto cfg_plain (bs "identity") (bs "text/plain") o_none) = false /\
-  flatten (pipeline_pinned H1 cfg_auto cfg_plain (bs "identity") (bs "text/plain") o_none) = ([TAutoDecode], true) /\
-  flatten (pipeline H1 cfg_auto cfg_plain (bs "identity") (bs "text/plain") o_none) = ([TAutoDecode; TEofSignal], false).
+  sound (pipeline_pinned H1 cfg_auto cfg_plain [] (bs "identity") (bs "text/plain") o_none) = false /\
+  sound (pipeline_pinned H2 cfg_auto cfg_plain [] (bs "identity") (bs "text/plain") o_none) = false /\
+  sound (pipeline_pinned H3 cfg_auto cfg_plain [] (bs "identity") (bs "text/plain") o_none) = false /\
+  flatten (pipeline_pinned H1 cfg_auto cfg_plain [] (bs "identity") (bs "text/plain") o_none) = ([TAutoDecode], true) /\
+  flatten (pipeline H1 cfg_auto cfg_plain [] (bs "identity") (bs "text/plain") o_none) = ([TAutoDecode; TEofSignal], false).
 Proof. exact pinned_refuted. Qed.
 Print Assumptions C07_stages_pinned_refuted.
 
@@ -232,7 +236,9 @@ Theorem C07_consts_agree :
   text_markers = Gen.C07Consts.fork_text_content_types /\
   Gen.C07Consts.fork_default_max_header_h1 = 10485760%N /\
   Gen.C07Consts.fork_default_max_header_h3 = 10485760%N /\
-  Gen.C07Consts.fork_h3_settings_cap = 8192%N.
+  Gen.C07Consts.fork_h3_settings_cap = 8192%N /\
+  (Gen.C07Consts.fork_autodecode_guard_header = bs "Accept-Encoding" \/
+   Gen.C07Consts.fork_autodecode_guard_header = bs "Content-Encoding").
 Proof. exact c07_consts_agree. Qed.
 Print Assumptions C07_consts_agree.
 
@@ -251,8 +257,8 @@ Example C07_nonvacuous :
   info_head (bs "GET") 4096 i /\ length i <= 64 /\
   run_exchange (bs "GET") 4096 20 (i ++ f) = XErr /\
   flatten (pipeline H1 {| t_head := false; t_wire_cl := 9; t_ended := false; t_asked := true; t_auto := false |}
-             {| p_callback := true; p_decode := {| d_disable := false; d_custom := None; d_resp_ae := [] |}; p_dumpers := 1 |}
-             (bs "GZIP") (bs "text/html") o_none)
+             {| p_callback := true; p_decode := {| d_disable := false; d_custom := None |}; p_dumpers := 1 |}
+             [] (bs "GZIP") (bs "text/html") o_none)
     = ([TDump; TAutoDecode; TGzipH1; TEofSignal; TCallback], false) /\
   parse_header (bs "h2=""alt.example:443"", h3="":8443""; ma=3600; persist=1") =
     ([ {| e_proto := bs "h2"; e_host := bs "alt.example"; e_port := bs "443"; e_ma := false |};
